@@ -182,3 +182,36 @@ End WithLz4.
       + rewrite (cumsum_nth ul 0 (N.to_nat (a - 1))) by lia. replace (S (N.to_nat (a - 1))) with (N.to_nat a) by lia.
         replace (0 + nsumN (firstn (N.to_nat b) ul) <? 0 + nsumN (firstn (N.to_nat a) ul)) with false by lia. f_equal. lia.
   Qed.
+
+  (* ---- adjacent ranges ---- *)
+
+Lemma firstn_add_split {A} : forall n m (l : list A), firstn (n + m) l = firstn n l ++ firstn m (skipn n l).
+Proof. induction n as [|n IH]; intros m l; [reflexivity|]. destruct l as [|x r]; [cbn; destruct m; reflexivity|]. cbn [Nat.add firstn skipn app]. rewrite IH. reflexivity. Qed.
+
+Lemma skipn_skipn' {A} : forall x y (l : list A), skipn x (skipn y l) = skipn (y + x) l.
+Proof. intros x y; revert x. induction y as [|y IH]; intros x l; [reflexivity|]. destruct l as [|h r]; [cbn; destruct x; reflexivity|]. cbn [Nat.add skipn]. apply IH. Qed.
+
+Lemma chunk_range_split {A} (l : list (list A)) a b c : a <= b -> b <= c ->
+  concat (firstn (N.to_nat (c - a)) (skipn (N.to_nat a) l)) =
+  concat (firstn (N.to_nat (b - a)) (skipn (N.to_nat a) l)) ++ concat (firstn (N.to_nat (c - b)) (skipn (N.to_nat b) l)).
+Proof.
+  intros Hab Hbc. replace (N.to_nat (c - a)) with (N.to_nat (b - a) + N.to_nat (c - b))%nat by lia.
+  rewrite firstn_add_split, concat_app, skipn_skipn'. replace (N.to_nat a + N.to_nat (b - a))%nat with (N.to_nat b) by lia. reflexivity.
+Qed.
+
+(* reads of two adjacent chunk ranges concatenate to the read of their union: splitting a term over two fetches loses and repeats nothing *)
+Theorem xorb_adjacent_ranges_concat lz4c lz4d choose :
+  (forall x, lz4d (lz4c x) = Some x) -> (forall x, choose x <= MAX_SCHEME) ->
+  forall cashash chunks hashes scheme a b c,
+  xorb_input_ok cashash chunks hashes -> fold_right N.add 0 (phys_lens lz4c choose chunks scheme) < 4294967296 ->
+  bytes_eqb cashash zero_hash = false -> scheme_valid scheme -> a < b -> b < c -> c <= N.of_nat (length chunks) ->
+  let rd := get_bytes_by_chunk_range lz4d (built_info lz4c choose cashash chunks hashes scheme) (xorb_serialize lz4c choose cashash chunks hashes scheme) in
+  exists x y, rd a b = ROk x /\ rd b c = ROk y /\ rd a c = ROk (x ++ y).
+Proof.
+  intros Hrt Hcv cashash chunks hashes scheme a b c Hin Hp Hz Hs Hab Hbc Hcn rd.
+  exists (concat (firstn (N.to_nat (b - a)) (skipn (N.to_nat a) chunks))), (concat (firstn (N.to_nat (c - b)) (skipn (N.to_nat b) chunks))).
+  unfold rd. repeat split.
+  - apply (xorb_get_chunk_range lz4c lz4d choose Hrt Hcv); auto; lia.
+  - apply (xorb_get_chunk_range lz4c lz4d choose Hrt Hcv); auto; lia.
+  - rewrite <- chunk_range_split by lia. apply (xorb_get_chunk_range lz4c lz4d choose Hrt Hcv); auto; lia.
+Qed.
